@@ -23,23 +23,22 @@ open Brax MC
 section group
 variable {K : Type} [CommRing K]
 
+theorem v3_neg_add_cancel (a : V3 K) : -a + a = (0 : V3 K) := by
+  cases a; show (_ : V3 K) = ⟨0, 0, 0⟩; simp only [V3.neg_def, V3.add_def]; congr 1 <;> ring
+theorem v3_sub_eq_add_neg (a b : V3 K) : a - b = a + -b := by
+  simp only [V3.neg_def, V3.add_def, V3.sub_def]; congr 1 <;> ring
+
 instance instAddCommGroupV3 : AddCommGroup (V3 K) where
   add := (· + ·)
   zero := 0
   neg := Neg.neg
   sub := fun a b => a - b
-  add_assoc := by intro a b c; simp only [HAdd.hAdd, Add.add, V3.add]; congr 1 <;> ring
-  zero_add := by
-    intro a; cases a; simp only [HAdd.hAdd, Add.add, V3.add, OfNat.ofNat, Zero.zero]; congr 1 <;> ring
-  add_zero := by
-    intro a; cases a; simp only [HAdd.hAdd, Add.add, V3.add, OfNat.ofNat, Zero.zero]; congr 1 <;> ring
-  add_comm := by intro a b; simp only [HAdd.hAdd, Add.add, V3.add]; congr 1 <;> ring
-  neg_add_cancel := by
-    intro a; cases a
-    simp only [HAdd.hAdd, Add.add, V3.add, Neg.neg, V3.neg, OfNat.ofNat, Zero.zero]; congr 1 <;> ring
-  sub_eq_add_neg := by
-    intro a b
-    simp only [HSub.hSub, Sub.sub, V3.sub, HAdd.hAdd, Add.add, V3.add, Neg.neg, V3.neg]; congr 1 <;> ring
+  add_assoc := V3.add_assoc'
+  zero_add := V3.zero_add'
+  add_zero := V3.add_zero'
+  add_comm := V3.add_comm'
+  neg_add_cancel := v3_neg_add_cancel
+  sub_eq_add_neg := v3_sub_eq_add_neg
   nsmul := nsmulRec
   zsmul := zsmulRec
 
@@ -124,11 +123,12 @@ theorem eq_tab_of_length [Inhabited β] {l : List β} {n : Nat} (h : l.length = 
 
 theorem zip_tab {γ : Type} [Inhabited γ] (n : Nat) (f : Nat → β) {l : List γ} (h : l.length = n) :
     (tab n f).zip l = tab n (fun i => (f i, nth l i)) := by
-  conv_lhs => rw [eq_tab_of_length h]
-  simp only [tab, List.zip_map, List.zip_self, List.map_map]
-  apply List.map_congr_left
-  intro i _
-  simp
+  apply List.ext_getElem
+  · simp [tab_length, h]
+  · intro i h1 h2
+    have hi : i < n := by simpa [tab_length] using h2
+    simp only [tab, List.getElem_zip, List.getElem_map, List.getElem_range, nth]
+    rw [List.getD_eq_getElem?_getD, List.getElem?_eq_getElem (by omega)]; rfl
 
 end tab
 
@@ -155,8 +155,8 @@ theorem segAt_append (l₁ l₂ : List (M × Int)) (k : Nat) :
 
 theorem sum_ite_id (v : M) (id : Int) (n : Nat) :
     (∑ k ∈ Finset.range n, if id = (k : Int) then v else 0)
-      = if 0 ≤ id ∧ id < n then v else 0 := by
-  by_cases h : 0 ≤ id ∧ id < n
+      = if 0 ≤ id ∧ id < (n : Int) then v else 0 := by
+  by_cases h : 0 ≤ id ∧ id < (n : Int)
   · obtain ⟨h0, h1⟩ := h
     obtain ⟨m, rfl⟩ := Int.eq_ofNat_of_zero_le h0
     have hm : m < n := by exact_mod_cast h1
@@ -186,7 +186,7 @@ theorem nthS_segmentSum_eq {K : Type} [AddCommMonoid K] (vals : List K) (ids : L
 other ids — in particular the world parent `-1` — are dropped. -/
 theorem segmentSum_total (vals : List M) (ids : List Int) (n : Nat) :
     (segmentSum vals ids n).sum
-      = (((vals.zip ids).filter fun p => decide (0 ≤ p.2 ∧ p.2 < n)).map (·.1)).sum := by
+      = (((vals.zip ids).filter fun p => decide (0 ≤ p.2 ∧ p.2 < (n : Int))).map (·.1)).sum := by
   unfold segmentSum
   rw [sum_tab]
   change ∑ k ∈ Finset.range n, segAt (vals.zip ids) k = _
@@ -195,7 +195,7 @@ theorem segmentSum_total (vals : List M) (ids : List Int) (n : Nat) :
   | nil => simp [segAt_nil]
   | cons p l ih =>
     simp only [segAt_cons, Finset.sum_add_distrib, ih, sum_ite_id, List.filter_cons]
-    by_cases h : 0 ≤ p.2 ∧ p.2 < n
+    by_cases h : 0 ≤ p.2 ∧ p.2 < (n : Int)
     · simp [h]
     · simp [h]
 
@@ -208,13 +208,13 @@ variable {K : Type} [CommRing K]
 `w_{id} · val` -/
 theorem segmentSum_weighted_total (w : Nat → K) (l : List (V3 K × Int)) (n : Nat) :
     (∑ k ∈ Finset.range n, V3.smul (w k) (segAt l k))
-      = ((l.filter fun p => decide (0 ≤ p.2 ∧ p.2 < n)).map fun p => V3.smul (w p.2.toNat) p.1).sum := by
+      = ((l.filter fun p => decide (0 ≤ p.2 ∧ p.2 < (n : Int))).map fun p => V3.smul (w p.2.toNat) p.1).sum := by
   induction l with
   | nil => simp [segAt_nil, smul_zero']
   | cons p l ih =>
     simp only [segAt_cons, smul_add', Finset.sum_add_distrib, ih, List.filter_cons]
     have : (∑ k ∈ Finset.range n, V3.smul (w k) (if p.2 = (k : Int) then p.1 else 0))
-        = if 0 ≤ p.2 ∧ p.2 < n then V3.smul (w p.2.toNat) p.1 else 0 := by
+        = if 0 ≤ p.2 ∧ p.2 < (n : Int) then V3.smul (w p.2.toNat) p.1 else 0 := by
       rw [← sum_ite_id]
       apply Finset.sum_congr rfl
       intro k _
@@ -222,7 +222,7 @@ theorem segmentSum_weighted_total (w : Nat → K) (l : List (V3 K × Int)) (n : 
       · simp [hk]
       · simp [hk, smul_zero']
     rw [this]
-    by_cases h : 0 ≤ p.2 ∧ p.2 < n
+    by_cases h : 0 ≤ p.2 ∧ p.2 < (n : Int)
     · simp [h]
     · simp [h]
 
@@ -232,46 +232,46 @@ end weighted
 section force
 variable {K : Type} [CommRing K]
 
+theorem force_add_assoc (a b c : Force K) : a + b + c = a + (b + c) := by
+  simp only [Force.add_def, V3.add_def]; congr 1 <;> congr 1 <;> ring
+theorem force_add_comm (a b : Force K) : a + b = b + a := by
+  simp only [Force.add_def, V3.add_def]; congr 1 <;> congr 1 <;> ring
+theorem force_zero_add (a : Force K) : (0 : Force K) + a = a := by
+  obtain ⟨⟨a1, a2, a3⟩, ⟨b1, b2, b3⟩⟩ := a
+  show (⟨⟨0, 0, 0⟩, ⟨0, 0, 0⟩⟩ : Force K) + _ = _
+  simp only [Force.add_def, V3.add_def, zero_add]
+theorem force_add_zero (a : Force K) : a + (0 : Force K) = a := by
+  rw [force_add_comm, force_zero_add]
+
 instance instAddCommMonoidForce : AddCommMonoid (Force K) where
   add := (· + ·)
   zero := 0
-  add_assoc := by
-    intro a b c; simp only [HAdd.hAdd, Add.add, Force.add, V3.add]; congr 1 <;> congr 1 <;> ring
-  zero_add := by
-    intro a; obtain ⟨⟨a1, a2, a3⟩, ⟨b1, b2, b3⟩⟩ := a
-    simp only [HAdd.hAdd, Add.add, Force.add, V3.add, OfNat.ofNat, Zero.zero]
-    congr 1 <;> congr 1 <;> ring
-  add_zero := by
-    intro a; obtain ⟨⟨a1, a2, a3⟩, ⟨b1, b2, b3⟩⟩ := a
-    simp only [HAdd.hAdd, Add.add, Force.add, V3.add, OfNat.ofNat, Zero.zero]
-    congr 1 <;> congr 1 <;> ring
-  add_comm := by
-    intro a b; simp only [HAdd.hAdd, Add.add, Force.add, V3.add]; congr 1 <;> congr 1 <;> ring
+  add_assoc := force_add_assoc
+  zero_add := force_zero_add
+  add_zero := force_add_zero
+  add_comm := force_add_comm
   nsmul := nsmulRec
+
+theorem dtf_add_def (a b : Positional.DTf K) : a + b = ⟨a.pos + b.pos, a.rot + b.rot⟩ := rfl
+theorem q4_add_def (a b : Q4 K) : a + b = ⟨a.w + b.w, a.x + b.x, a.y + b.y, a.z + b.z⟩ := rfl
+theorem dtf_add_assoc (a b c : Positional.DTf K) : a + b + c = a + (b + c) := by
+  simp only [dtf_add_def, V3.add_def, q4_add_def]; congr 1 <;> congr 1 <;> ring
+theorem dtf_add_comm (a b : Positional.DTf K) : a + b = b + a := by
+  simp only [dtf_add_def, V3.add_def, q4_add_def]; congr 1 <;> congr 1 <;> ring
+theorem dtf_zero_add (a : Positional.DTf K) : (0 : Positional.DTf K) + a = a := by
+  obtain ⟨⟨a1, a2, a3⟩, ⟨b0, b1, b2, b3⟩⟩ := a
+  show (⟨⟨0, 0, 0⟩, ⟨0, 0, 0, 0⟩⟩ : Positional.DTf K) + _ = _
+  simp only [dtf_add_def, V3.add_def, q4_add_def, zero_add]
+theorem dtf_add_zero (a : Positional.DTf K) : a + (0 : Positional.DTf K) = a := by
+  rw [dtf_add_comm, dtf_zero_add]
 
 instance instAddCommMonoidDTf : AddCommMonoid (Positional.DTf K) where
   add := (· + ·)
   zero := 0
-  add_assoc := by
-    intro a b c
-    simp only [HAdd.hAdd, Add.add, V3.add]; congr 1
-    · congr 1 <;> ring
-    · congr 1 <;> ring
-  zero_add := by
-    intro a; obtain ⟨⟨a1, a2, a3⟩, ⟨b0, b1, b2, b3⟩⟩ := a
-    simp only [HAdd.hAdd, Add.add, V3.add, OfNat.ofNat, Zero.zero]; congr 1
-    · congr 1 <;> ring
-    · congr 1 <;> ring
-  add_zero := by
-    intro a; obtain ⟨⟨a1, a2, a3⟩, ⟨b0, b1, b2, b3⟩⟩ := a
-    simp only [HAdd.hAdd, Add.add, V3.add, OfNat.ofNat, Zero.zero]; congr 1
-    · congr 1 <;> ring
-    · congr 1 <;> ring
-  add_comm := by
-    intro a b
-    simp only [HAdd.hAdd, Add.add, V3.add]; congr 1
-    · congr 1 <;> ring
-    · congr 1 <;> ring
+  add_assoc := dtf_add_assoc
+  zero_add := dtf_zero_add
+  add_zero := dtf_add_zero
+  add_comm := dtf_add_comm
   nsmul := nsmulRec
 
 theorem force_zero_vel : (0 : Force K).vel = 0 := rfl
